@@ -121,7 +121,9 @@ def run(ctx, out):
                 "symlink, a hard link, a directory onto itself / into its parent / through a directory symlink, a hard-linked "
                 "earlier copy, with and without backups and other valid sources, both drivers; (b) SIGKILL before and after every "
                 "mutating system call of small copies (overwrite with numbered backup, tree, tree overwrite); (c) one injected "
-                "errno at every call; in all of them every source and bystander entry is compared before/after (content, kind, "
+                "errno at every call; (d) FIFO / socket / device sources whose mapped target is the source node itself through a "
+                "symlinked directory of the destination; (e) a dangling symbolic link (absolute / relative, pointing outside or "
+                "inside the destination) where a regular file is to be copied; in all of them every source and bystander entry is compared before/after (content, kind, "
                 "mode, owner, mtime, xattrs) and every mutating call of the trace must target a mapped destination path or its "
                 "backup; non-trivial = all; distinct = (case, point)")
     d0 = ctx.work.fresh("c03")
@@ -283,6 +285,90 @@ def run(ctx, out):
                 if r.meta.get("timeout"):
                     out.violation("xcp hung after an injected fault", dict(argv=argv[1:], point=(sysn, path, nth, errno)))
             shutil.rmtree(d, ignore_errors=True)
+    # ---- (d) special files reached through an alias: dest/src/sub is a symlink to src/sub, which holds a FIFO, a socket,
+    #      a character device and a regular file: the mapped target of each IS the source node; nothing may be unlinked
+    import socket as _socket
+    import stat as _stat
+    for driver in ("parfile", "parblock"):
+        for which in ("fifo", "sock", "chr", "all"):
+            for extra in ([], ["-w", "1"], ["--backup", "numbered"]):
+                if quick and extra and which != "all":
+                    continue
+                d = os.path.join(d0, "sp_%s_%s_%d" % (driver, which, len(extra)))
+                os.makedirs(os.path.join(d, "src", "sub"))
+                os.makedirs(os.path.join(d, "dest", "src"))
+                os.symlink("../../src/sub", os.path.join(d, "dest", "src", "sub"))
+                sub = os.path.join(d, "src", "sub")
+                if which in ("fifo", "all"):
+                    os.mkfifo(os.path.join(sub, "p"), 0o640)
+                if which in ("sock", "all"):
+                    sk = _socket.socket(_socket.AF_UNIX)
+                    cwd = os.getcwd()
+                    try:
+                        os.chdir(sub)
+                        sk.bind("s")
+                    finally:
+                        os.chdir(cwd)
+                        sk.close()
+                if which in ("chr", "all"):
+                    try:
+                        os.mknod(os.path.join(sub, "c"), 0o600 | _stat.S_IFCHR, os.makedev(1, 3))
+                    except OSError:
+                        pass
+                open(os.path.join(d, "src", "top.txt"), "wb").write(b"top")
+                inos = {n: os.lstat(os.path.join(sub, n)).st_ino for n in os.listdir(sub)}
+                before = src_snapshot(d, [])
+                argv = [ctx.bins["xcp"], "-r", "--driver", driver] + extra + ["src", "dest"]
+                r = xcp.run_supervised(sup, argv, d, d, tag="s", timeout_ms=20000)
+                after = src_snapshot(d, [b"dest"])
+                out.case(("special-alias", driver, which, tuple(extra)), True)
+                out.count("special_file_aliases")
+                rep = dict(argv=argv[1:], layout="dest/src/sub -> ../../src/sub holding %s" % sorted(inos), exit=r.exit, stderr=r.stderr[-300:])
+                why = cmp_snap({p: e for p, e in before.items() if not p.startswith(b"dest")}, after)
+                if not why:
+                    for n, ino in inos.items():
+                        try:
+                            if os.lstat(os.path.join(sub, n)).st_ino != ino:
+                                why = "source node src/sub/%s was replaced (inode %d -> %d)" % (n, ino, os.lstat(os.path.join(sub, n)).st_ino)
+                        except OSError:
+                            why = "source node src/sub/%s was removed" % n
+                if why:
+                    out.violation("special file whose target is itself through a symlinked directory: %s (exit %d)" % (why, r.exit), rep)
+                if r.exit == 0:
+                    out.violation("a copy of special files onto themselves through an alias exited 0", rep)
+                shutil.rmtree(d, ignore_errors=True)
+    # ---- (e) a DANGLING symbolic link in the destination (left by an earlier copy of a tree that had the link) where the
+    #      source now has a regular file: nothing may be created where the link points (a bystander location)
+    for driver in ("parfile", "parblock"):
+        for tgt in ("abs-outside", "rel-outside", "rel-inside"):
+            for extra in ([], ["--backup", "numbered"], ["-n"]):
+                if quick and extra and tgt != "abs-outside":
+                    continue
+                d = os.path.join(d0, "dg_%s_%s_%d" % (driver, tgt, len(extra)))
+                os.makedirs(os.path.join(d, "src", "app"))
+                os.makedirs(os.path.join(d, "dst", "app"))
+                os.makedirs(os.path.join(d, "outside"))
+                open(os.path.join(d, "src", "app", "conf"), "wb").write(b"now a regular file\n")
+                open(os.path.join(d, "src", "app", "other"), "wb").write(b"other")
+                link = {"abs-outside": os.path.join(d, "outside", "created.txt"), "rel-outside": "../../outside/created.txt",
+                        "rel-inside": "../made-here.txt"}[tgt]
+                os.symlink(link, os.path.join(d, "dst", "app", "conf"))
+                before = src_snapshot(d, [b"dst"])
+                argv = [ctx.bins["xcp"], "-r", "-T", "--driver", driver] + extra + ["src", "dst"]
+                r = xcp.run_supervised(sup, argv, d, d, tag="g", timeout_ms=20000)
+                after = src_snapshot(d, [b"dst"])
+                out.case(("dangling-dest-link", driver, tgt, tuple(extra)), True)
+                out.count("dangling_destination_links")
+                rep = dict(argv=argv[1:], layout="dst/app/conf -> %s (dangling); src/app/conf is a regular file" % link, exit=r.exit,
+                           stderr=r.stderr[-300:])
+                why = cmp_snap(before, after)
+                if why:
+                    out.violation("copy over a dangling destination link: %s (exit %d)" % (why, r.exit), rep)
+                elif os.path.lexists(os.path.join(d, "dst", "made-here.txt")) and os.path.islink(os.path.join(d, "dst", "app", "conf")):
+                    out.violation("copy over a dangling destination link created the link's target instead of the entry (exit %d)" % r.exit, rep)
+                elif r.exit == 0 and os.path.islink(os.path.join(d, "dst", "app", "conf")):
+                    out.violation("exit 0 but dst/app/conf is still a symbolic link (the source has a regular file)", rep)
+                shutil.rmtree(d, ignore_errors=True)
     if ctx.model_ok and minputs:
         res = core.run_model("run_copy_actions", minputs, shard=20, tag="c03")
         for (rep, codes, renamed), mo in zip(mobs, res):
